@@ -212,6 +212,59 @@ func c10HeaderMut(rt *rapid.T, src *c10Source) c10Mut {
 	return m
 }
 
+// c10FieldMuts lists the header-field mutations of a stream deterministically
+// (re-marshalled header over untouched file bytes, plus the combined class
+// "checksum field zeroed/dropped + one flipped byte in that file"). Every one
+// of them changes a size or checksum the header announces for the data that
+// follows, so install and restore must both fail ("a header that does not
+// match the data"). A proto3 field set to 0 is not encoded at all, so crc=0 /
+// size=0 also cover "field dropped from the header".
+func c10FieldMuts(src *c10Source) []c10Mut {
+	var out []c10Mut
+	body := src.data[src.hdrEnd:]
+	nw := len(src.hdr.GetFull().GetWalHeaders())
+	// file i: 0 = database, 1.. = WALs; returns the header entry of a clone
+	entry := func(h *sproto.SnapshotHeader, i int) *sproto.Header {
+		if i == 0 {
+			return h.GetFull().DbHeader
+		}
+		return h.GetFull().WalHeaders[i-1]
+	}
+	add := func(kind string, i int, edit func(e *sproto.Header), flipData bool) {
+		h := pb.Clone(src.hdr).(*sproto.SnapshotHeader)
+		e := entry(h, i)
+		before := pb.Clone(e).(*sproto.Header)
+		edit(e)
+		if pb.Equal(before, e) {
+			return // not a change for this stream (e.g. crc already has that value)
+		}
+		b := body
+		if flipData {
+			b = append([]byte(nil), body...)
+			// a byte in the middle of file i (keeps the SQLite / WAL magic intact)
+			start, end := src.bounds[i]-src.hdrEnd, src.bounds[i+1]-src.hdrEnd
+			b[start+(end-start)/2+7] ^= 0x10
+		}
+		name := "db"
+		if i > 0 {
+			name = fmt.Sprintf("wal%d", i-1)
+		}
+		out = append(out, c10Mut{kind: "hdr-" + name + "-" + kind, pos: 4, region: "header", out: g4Frame(h, b), dataAffecting: true})
+	}
+	for i := 0; i <= nw; i++ {
+		add("crc=0", i, func(e *sproto.Header) { e.Crc32 = 0 }, false)
+		add("crc^1", i, func(e *sproto.Header) { e.Crc32 ^= 1 }, false)
+		add("crc^msb", i, func(e *sproto.Header) { e.Crc32 ^= 1 << 31 }, false)
+		add("crc=ffffffff", i, func(e *sproto.Header) { e.Crc32 = 0xffffffff }, false)
+		add("size+1", i, func(e *sproto.Header) { e.SizeBytes++ }, false)
+		add("size-1", i, func(e *sproto.Header) { e.SizeBytes-- }, false)
+		add("size=0", i, func(e *sproto.Header) { e.SizeBytes = 0 }, false)
+		add("crc=0+dataflip", i, func(e *sproto.Header) { e.Crc32 = 0 }, true)
+		add("crc=ffffffff+dataflip", i, func(e *sproto.Header) { e.Crc32 = 0xffffffff }, true)
+	}
+	return out
+}
+
 // c10Judge applies the oracle to one mutated stream. dest must be a store the
 // case owns. It returns a violation signature and message, or "".
 type c10Verdict struct {
@@ -226,6 +279,11 @@ func c10CheckMutation(src *c10Source, m c10Mut, dest *snapshot.Store, index uint
 	if !declaredSize && !compressedWire {
 		size = int64(len(wire)) // the request's size field agrees with what is sent: only the store can notice
 	}
+	// What the receiver can see is cut at the request's size. If that is byte
+	// for byte the unmutated stream (an extension, or a byte inserted into a
+	// run of equal bytes that reaches the end of the stream), nothing was
+	// mutated as far as the store is concerned and the install must succeed.
+	invisible := !compressedWire && int64(len(wire)) >= size && bytes.Equal(wire[:size], src.data)
 	id, perr := g4Receive(dest, index, 1, wire, size, compressedWire, cuts)
 	listed := id != "" && c10Listed(dest, id)
 	switch {
@@ -246,10 +304,10 @@ func c10CheckMutation(src *c10Source, m c10Mut, dest *snapshot.Store, index uint
 			v.sig = "C10/altered-data-installed"
 			v.msg = fmt.Sprintf("mutation %v (compressed=%v) was installed and restores to different content:\n--- restored\n%s--- source\n%s", m, compressedWire, g4Short(got), g4Short(src.snap.Dump))
 			return v
-		case m.kind == "extend" && size == src.size:
-			// raft's limit on the connection cut the extension off before the
+		case invisible:
+			// raft's limit on the connection cut the mutation off before the
 			// store could see it: what arrived is the unmutated stream
-			v.labels = append(v.labels, "install:extension-cut-by-size-limit")
+			v.labels = append(v.labels, "install:mutation-cut-by-size-limit")
 		case m.dataAffecting && !compressedWire:
 			v.sig = "C10/corrupt-stream-installed"
 			v.msg = fmt.Sprintf("mutation %v of file data / sizes / CRCs / framing was installed without error (content happens to be logically identical)", m)
@@ -441,7 +499,7 @@ func TestVerif_C10_Exact(t *testing.T) {
 func TestVerif_C10_Mutate(t *testing.T) {
 	vsnap.Quiet()
 	rec := vstat.New(t, "C10", "mutate",
-		"rapid: source as in 'exact' (1..3 snapshots); one mutation of the travelling bytes: bit flip / byte drop / byte insert at a generated position (biased to the length prefix, the header, file boundaries and the last WAL), truncation, extension, or a re-marshalled header (db/WAL size +-, CRC bit, version, extra/dropped/swapped WAL entries, shifted file boundary); plain transfers with the request size either as declared by the sender or equal to the mutated length, compressed transfers mutated on the compressed bytes; consumers: install (+Open+Restore) and snapshot.Restore of the mutated stream. non-trivial = mutation lands in file data, a size/CRC field, the length prefix or changes the length; distinct by shape+mutation")
+		"rapid: source as in 'exact' (1..3 snapshots); one mutation of the travelling bytes: bit flip / byte drop / byte insert at a generated position (biased to the length prefix, the header, file boundaries and the last WAL), truncation, extension, or a re-marshalled header (db/WAL size +-, CRC bit, version, extra/dropped/swapped WAL entries, shifted file boundary), or a field mutation of one file entry (crc32 := 0 / dropped, ^1, ^msb, ffffffff, size +-1, 0, and crc32 := 0 combined with a flipped byte of that file); plain transfers with the request size either as declared by the sender or equal to the mutated length, compressed transfers mutated on the compressed bytes; consumers: install (+Open+Restore) and snapshot.Restore of the mutated stream. non-trivial = mutation lands in file data, a size/CRC field, the length prefix or changes the length; distinct by shape+mutation")
 	rapid.Check(t, func(rt *rapid.T) {
 		root, err := os.MkdirTemp("", "c10m")
 		if err != nil {
@@ -468,8 +526,8 @@ func TestVerif_C10_Mutate(t *testing.T) {
 			base = &c10Source{snap: src.snap, data: wire, size: src.size, hdrEnd: 8, bounds: []int{8, len(wire)}}
 		}
 		var m c10Mut
-		kind := rapid.SampledFrom([]string{"flip", "flip", "flip", "drop", "insert", "truncate", "extend", "header", "header"}).Draw(rt, "mutation")
-		if compressed && kind == "header" {
+		kind := rapid.SampledFrom([]string{"flip", "flip", "flip", "drop", "insert", "truncate", "extend", "header", "header", "field", "field"}).Draw(rt, "mutation")
+		if compressed && (kind == "header" || kind == "field") {
 			kind = "flip"
 		}
 		n := len(base.data)
@@ -508,6 +566,8 @@ func TestVerif_C10_Mutate(t *testing.T) {
 			m = c10ByteMut(base, "truncate", pickPos(), 0)
 		case "extend":
 			m = c10ByteMut(base, "extend", rapid.SampledFrom([]int{1, 2, 24, 4096, 5000}).Draw(rt, "extra"), rapid.Byte().Draw(rt, "byte"))
+		case "field":
+			m = rapid.SampledFrom(c10FieldMuts(src)).Draw(rt, "field")
 		default:
 			m = c10HeaderMut(rt, src)
 		}
@@ -539,7 +599,7 @@ func TestVerif_C10_Mutate(t *testing.T) {
 func TestVerif_C10_EveryPos(t *testing.T) {
 	vsnap.Quiet()
 	rec := vstat.New(t, "C10", "everypos",
-		"enumeration over small streams (one-table database; shapes F, F+I1, F+I2, X2): for every byte position of the length prefix and header all 8 single-bit flips, drop and insert; for file data every position (thorough) or every stride-th position plus the first/last 3 bytes of every file (quick) one bit flip, drop, insert; truncation at the same positions; extensions by 1, 24 and 4096 bytes; consumers install (size as declared and size = mutated length) and snapshot.Restore. non-trivial = mutation lands in file data, a size/CRC field, the length prefix or changes the length; distinct by stream+mutation")
+		"enumeration over small streams (one-table database; shapes F, F+I1, F+I2, X2): for every byte position of the length prefix and header all 8 single-bit flips, drop and insert; for file data every position (thorough) or every stride-th position plus the first/last 3 bytes of every file (quick) one bit flip, drop, insert; truncation at the same positions; extensions by 1, 24 and 4096 bytes; every header-field mutation of every file entry (crc32 := 0 [= field dropped], ^1, ^msb, ffffffff; size_bytes +1, -1, 0; crc32 := 0 or ffffffff combined with a flipped data byte of that file); consumers install (size as declared and size = mutated length) and snapshot.Restore. non-trivial = mutation lands in file data, a size/CRC field, the length prefix or changes the length; distinct by stream+mutation")
 	root, err := os.MkdirTemp("", "c10e")
 	if err != nil {
 		t.Skip()
@@ -684,6 +744,11 @@ func TestVerif_C10_EveryPos(t *testing.T) {
 			try(c10ByteMut(src, "drop", p, 0))
 			try(c10ByteMut(src, "insert", p, byte(p)))
 			try(c10ByteMut(src, "truncate", p, 0))
+		}
+		if shardK == 0 {
+			for _, fm := range c10FieldMuts(src) {
+				try(fm)
+			}
 		}
 		for _, extra := range []int{1, 24, 4096} {
 			if shardK != 0 {
